@@ -82,6 +82,12 @@ func c20Actions(args []string) error {
 			for i, tc := range tests {
 				isRoute := strings.Contains(dir, "routers")
 				jobs = append(jobs, job{fmt.Sprintf("%s#%d", strings.TrimPrefix(fn, "/repo/"), i), assetsJSON, tc, isRoute, "", false})
+				// fixed group references whose UUID is not among the assets while their name is that of an existing group
+				if !isRoute && strings.Contains(string(tc.Action), `"groups"`) && strings.Contains(string(tc.Action), `"b7cf0d83-f1c9-411c-96fd-c511a4cfa86d"`) {
+					stale := tc
+					stale.Action = json.RawMessage(strings.ReplaceAll(strings.ReplaceAll(string(tc.Action), "b7cf0d83-f1c9-411c-96fd-c511a4cfa86d", "b7cf0d83-f1c9-411c-96fd-c511a4cf0000"), `"Testers"`, `"TESTERS"`))
+					jobs = append(jobs, job{fmt.Sprintf("%s#%d+stale-group-uuid", strings.TrimPrefix(fn, "/repo/"), i), assetsJSON, stale, isRoute, "", false})
+				}
 				if !isRoute && strings.Contains(string(tc.Action), `"send_msg"`) && tc.Localization == nil {
 					jobs = append(jobs, job{fmt.Sprintf("%s#%d+translated-only", strings.TrimPrefix(fn, "/repo/"), i), assetsJSON, tc, isRoute, "", true})
 				}
